@@ -102,12 +102,18 @@ func (c channelState) Vouchers() []datatransfer.TypedVoucher {
 }
 
 func (c channelState) LastVoucher() datatransfer.TypedVoucher {
+	if len(c.ic.Vouchers) == 0 {
+		return datatransfer.TypedVoucher{}
+	}
 	ev := c.ic.Vouchers[len(c.ic.Vouchers)-1]
 
 	return datatransfer.TypedVoucher{Voucher: ev.Voucher.Node, Type: ev.Type}
 }
 
 func (c channelState) LastVoucherResult() datatransfer.TypedVoucher {
+	if len(c.ic.VoucherResults) == 0 {
+		return datatransfer.TypedVoucher{}
+	}
 	evr := c.ic.VoucherResults[len(c.ic.VoucherResults)-1]
 	return datatransfer.TypedVoucher{Voucher: evr.VoucherResult.Node, Type: evr.Type}
 }
